@@ -94,7 +94,7 @@ def structure_checks(model):
     """Harness-side assertions about facts the abstraction relies on."""
     from autofit.mapper.prior.abstract import Prior
     from autofit.mapper.prior.tuple_prior import TuplePrior
-    from autofit.mapper.prior.arithmetic.compound import CompoundPrior
+    from autofit.mapper.prior.arithmetic.compound import CompoundPrior, ModifiedPrior
     import re
     bad = []
     seen = set()
@@ -112,6 +112,12 @@ def structure_checks(model):
                 bad.append("compound operands are not the attributes named %s / %s" % (obj._left_name, obj._right_name))
             elif obj._left_name == obj._right_name and obj._left is not obj._right:
                 bad.append("compound with one attribute name for two different operands")
+        if isinstance(obj, ModifiedPrior):
+            keys = [k for k in obj.__dict__ if not k.startswith("_") and k != "id"]
+            if keys != [obj._prior_name]:
+                bad.append("modified-prior keys %s != [%s]" % (keys, obj._prior_name))
+            elif obj.__dict__[obj._prior_name] is not obj.prior:
+                bad.append("modified-prior operand is not the attribute named %s" % obj._prior_name)
         if isinstance(obj, TuplePrior):
             names = [k for k in obj.__dict__ if k != "id" and not k.startswith("_")]
             if all(re.fullmatch(r".*_\d+", n) for n in names) and len({n.rsplit("_", 1)[0] for n in names}) <= 1:
